@@ -1,4 +1,357 @@
-import LasioModel.Basic
-/- Curves model (to be filled in) -/
+import LasioModel.Section
+/-
+Model of the curve-editing API of `lasio.las.LASFile` (las.py), method by method:
+`append_curve`, `insert_curve`, `append_curve_item`, `insert_curve_item`, `replace_curve_item`,
+`delete_curve`, `update_curve`, `__setitem__`, `set_data`, and the views `keys/values/items/index/data/__getitem__`.
+
+State: the `~Curves` section (a `Section` from Section.lean, so that every statement about `SectionItems`
+transfers) and, in parallel, one data array per curve.  An array is a list of opaque cell tags
+(`Cell := Str`); a 2-D array is a list of rows.
+
+Validated facts about the real code (harness/props/c14.py compares after every step):
+* `insert_curve_item` asserts `isinstance(curve_item, CurveItem)` BEFORE touching the list; `replace_curve_item`
+  deletes first and inserts afterwards, so an `AssertionError` there leaves the curve deleted, and a negative
+  `ix` re-inserts relative to the SHORTER list (`replace_curve_item(-1, c)` puts `c` before the last remaining curve).
+* `delete_curve(mnemonic=m)` / `update_curve(mnemonic=m)` / `las[m] = …` resolve `m` with
+  `self.curves.keys().index(m)` / `m in self.curves.keys()` : exact, case-sensitive comparison with the SESSION
+  mnemonics, `ValueError` when absent (even when `mnemonic_transforms` is on).
+* `delete_curve(ix=i)` is `list.pop(i)` (IndexError out of range), `update_curve(ix=i)` is `self.curves[i]`
+  (`SectionItems.__getitem__` with an int: no item matches an int, then `list.__getitem__`).
+* `set_data`: `data[:, :len(curves)]` when `truncate`; while `size > 0` and wider than the curve list, append
+  `CurveItem("")` (each append re-suffixes the `UNKNOWN` group); names default to the original mnemonics (also for
+  `names=[]`), a short list is padded with `""`; when `size > 0` every curve `i` is RENAMED to `names[i]` (original :=
+  name, session := useful name) and then receives column `i` — for an array narrower than the curve list the
+  curve at position `width` is renamed, then `data[:, width]` raises IndexError and `assign_duplicate_suffixes()`
+  is never reached; otherwise all groups are re-suffixed (iteration over a Python `set` of useful names; the
+  result does not depend on the order, see `assignMany_set_indep` in LasioProofs/Lemmas/CurvesLemmas.lean).
+* Not modelled (outside the domain of the harness): aliasing (the same `CurveItem`/array object put into two
+  places), non-1-D curve arrays, `set_data` with a 1-D array or a DataFrame, `delete_curve()` without arguments,
+  `names` that is not a list of `str`.
+-/
 namespace Lasio
+
+abbrev Cell := Str
+
+/-- the curves of one LASFile: the `~Curves` section and the data array of each curve (parallel lists) -/
+structure LasCurves where
+  sec : Section
+  data : List (List Cell)
+deriving DecidableEq, Repr
+
+/-- well-formedness: one array per curve (an invariant of every operation, `C14_wf_step`) -/
+def LasCurves.WF (L : LasCurves) : Prop := L.sec.items.length = L.data.length
+
+instance (L : LasCurves) : Decidable L.WF := by unfold LasCurves.WF; infer_instance
+
+inductive CvResult where
+  | ok | keyError | valueError | indexError | assertionError
+deriving DecidableEq, Repr
+
+/-- an item object handed to `append_curve_item` / `insert_curve_item` / `replace_curve_item`:
+`isCurve = false` is a `HeaderItem` that is not a `CurveItem` -/
+structure CurveArg where
+  item : Item
+  data : List Cell
+  isCurve : Bool
+deriving DecidableEq, Repr
+
+/-- `keys().index(m)` : first position whose session mnemonic equals `m` exactly -/
+def keyIndex (keys : List Str) (m : Str) : Option Nat := findFirst (fun k => k == m) keys
+
+def LasCurves.keys (L : LasCurves) : List Str := L.sec.keys
+def LasCurves.len (L : LasCurves) : Nat := L.sec.items.length
+
+/-- `insert_curve_item(ix, curve_item)` -/
+def LasCurves.insertItem (L : LasCurves) (ix : Int) (c : CurveArg) : LasCurves × CvResult :=
+  if c.isCurve then
+    (⟨L.sec.insert ix c.item, insertAt L.data (pyInsertPos L.sec.items.length ix) c.data⟩, .ok)
+  else (L, .assertionError)
+
+/-- `append_curve_item(curve_item)` = `insert_curve_item(len(self.curves), curve_item)` -/
+def LasCurves.appendItem (L : LasCurves) (c : CurveArg) : LasCurves × CvResult :=
+  L.insertItem (Int.ofNat L.sec.items.length) c
+
+/-- `insert_curve(ix, mnemonic, data, unit, descr, value)` -/
+def LasCurves.insertCurve (L : LasCurves) (ix : Int) (m u v d : Str) (data : List Cell) : LasCurves × CvResult :=
+  L.insertItem ix ⟨mkItem m u v d, data, true⟩
+
+/-- `append_curve(mnemonic, data, unit, descr, value)` -/
+def LasCurves.appendCurve (L : LasCurves) (m u v d : Str) (data : List Cell) : LasCurves × CvResult :=
+  L.insertCurve (Int.ofNat L.sec.items.length) m u v d data
+
+/-- `delete_curve(ix=ix)` = `self.curves.pop(ix)` -/
+def LasCurves.deleteIx (L : LasCurves) (ix : Int) : LasCurves × CvResult :=
+  match L.sec.pop ix, pyIndex L.sec.items.length ix with
+  | .ok s', some j => (⟨s', L.data.eraseIdx j⟩, .ok)
+  | _, _ => (L, .indexError)
+
+/-- `delete_curve(mnemonic=m)` -/
+def LasCurves.deleteMnem (L : LasCurves) (m : Str) : LasCurves × CvResult :=
+  match keyIndex L.keys m with
+  | some j => L.deleteIx (Int.ofNat j)
+  | none => (L, .valueError)
+
+/-- `replace_curve_item(ix, curve_item)` = `delete_curve(ix=ix)` then `insert_curve_item(ix, curve_item)` -/
+def LasCurves.replaceItem (L : LasCurves) (ix : Int) (c : CurveArg) : LasCurves × CvResult :=
+  match L.deleteIx ix with
+  | (L', .ok) => L'.insertItem ix c
+  | r => r
+
+/-- the attribute assignments of `update_curve` on the curve at position `j` -/
+def LasCurves.updateAt (L : LasCurves) (j : Nat) (data : Option (List Cell)) (unit descr value : Option Str) :
+    LasCurves :=
+  ⟨{ L.sec with items := L.sec.items.modify j (fun it =>
+      { it with unit := unit.getD it.unit, descr := descr.getD it.descr, value := value.getD it.value }) },
+   L.data.modify j (fun old => data.getD old)⟩
+
+/-- `update_curve(ix=ix, data=…, unit=…, descr=…, value=…)` (`none` = the `False` default, no update) -/
+def LasCurves.updateIx (L : LasCurves) (ix : Int) (data : Option (List Cell)) (unit descr value : Option Str) :
+    LasCurves × CvResult :=
+  match L.sec.getitem (.int ix) with
+  | .ok j => (L.updateAt j data unit descr value, .ok)
+  | .error _ => (L, .indexError)
+
+/-- `update_curve(mnemonic=m, …)` -/
+def LasCurves.updateMnem (L : LasCurves) (m : Str) (data : Option (List Cell)) (unit descr value : Option Str) :
+    LasCurves × CvResult :=
+  match keyIndex L.keys m with
+  | some j => L.updateIx (Int.ofNat j) data unit descr value
+  | none => (L, .valueError)
+
+/-- `las[key] = CurveItem(...)` -/
+def LasCurves.setItemCurve (L : LasCurves) (key : Str) (it : Item) (data : List Cell) : LasCurves × CvResult :=
+  if key != it.session then (L, .keyError)
+  else match keyIndex L.keys key with
+    | some j => L.replaceItem (Int.ofNat j) ⟨it, data, true⟩
+    | none => L.appendItem ⟨it, data, true⟩
+
+/-- `las[key] = array` -/
+def LasCurves.setItemData (L : LasCurves) (key : Str) (data : List Cell) : LasCurves × CvResult :=
+  match keyIndex L.keys key with
+  | some _ => L.updateMnem key (some data) none none none
+  | none => L.appendCurve key [] [] [] data
+
+/-! ### `set_data` -/
+
+/-- `data.shape[1]` of a list of rows (irrelevant when there are no rows: then `size == 0`) -/
+def cvRowsWidth : List (List Cell) → Nat
+  | [] => 0
+  | r :: _ => r.length
+
+/-- `data[:, i]` -/
+def cvColumn (rows : List (List Cell)) (i : Nat) : List Cell := rows.map (fun r => r.getD i [])
+
+/-- `CurveItem("")` -/
+def cvBlankItem : Item := mkItem [] [] [] []
+
+/-- `k` times `self.curves.append(CurveItem(""))` (the new curve's array is `np.asarray([])`) -/
+def LasCurves.extend (L : LasCurves) : Nat → LasCurves
+  | 0 => L
+  | k + 1 => LasCurves.extend ⟨L.sec.append cvBlankItem, L.data ++ [[]]⟩ k
+
+/-- `item.mnemonic = n` (`HeaderItem.__setattr__`) -/
+def renameItem (it : Item) (n : Str) : Item := { it with orig := n, session := useful n }
+
+def cvMapIdx {α β} (f : Nat → α → β) : Nat → List α → List β
+  | _, [] => []
+  | i, a :: as => f i a :: cvMapIdx f (i + 1) as
+
+/-- `assign_duplicate_suffixes(t)` for every `t` of a list of test mnemonics, in that order -/
+def assignMany (s : Section) (ts : List Str) : Section := ts.foldl Section.assignSuffixes s
+
+/-- `assign_duplicate_suffixes()` : every useful mnemonic present is a test mnemonic (Python iterates a `set`;
+here: list order, the result is the same for every order and multiplicity, `assignMany_set_indep`) -/
+def Section.assignAll (s : Section) : Section := assignMany s (s.items.map fun it => useful it.orig)
+
+/-- the `names` actually used by `set_data` for a curve list with original mnemonics `origs` -/
+def effectiveNames (origs : List Str) (names : Option (List Str)) : List Str :=
+  match names with
+  | none => origs
+  | some [] => origs
+  | some ns => ns ++ List.replicate (origs.length - ns.length) []
+
+/-- `set_data(array_like, names, truncate)` for a 2-D array given as its list of rows -/
+def LasCurves.setData (L : LasCurves) (rows : List (List Cell)) (names : Option (List Str)) (truncate : Bool) :
+    LasCurves × CvResult :=
+  let rows1 := if truncate then rows.map (fun r => r.take L.sec.items.length) else rows
+  let w := cvRowsWidth rows1
+  if 0 < rows1.length * w then
+    let L1 := L.extend (w - L.sec.items.length)
+    let names1 := effectiveNames L1.sec.origs names
+    let items2 := cvMapIdx (fun i it => if i ≤ w then renameItem it (names1.getD i []) else it) 0 L1.sec.items
+    let data2 := cvMapIdx (fun i d => if i < w then cvColumn rows1 i else d) 0 L1.data
+    if L1.sec.items.length ≤ w then
+      (⟨Section.assignAll { L1.sec with items := items2 }, data2⟩, .ok)
+    else (⟨{ L1.sec with items := items2 }, data2⟩, .indexError)
+  else (⟨L.sec.assignAll, L.data⟩, .ok)
+
+/-! ### the operations as data -/
+
+inductive CurveOp where
+  | appendCurve (m u v d : Str) (data : List Cell)
+  | insertCurve (ix : Int) (m u v d : Str) (data : List Cell)
+  | appendItem (c : CurveArg)
+  | insertItem (ix : Int) (c : CurveArg)
+  | replaceItem (ix : Int) (c : CurveArg)
+  | deleteIx (ix : Int)
+  | deleteMnem (m : Str)
+  | updateIx (ix : Int) (data : Option (List Cell)) (unit descr value : Option Str)
+  | updateMnem (m : Str) (data : Option (List Cell)) (unit descr value : Option Str)
+  | setItemCurve (key : Str) (it : Item) (data : List Cell)
+  | setItemData (key : Str) (data : List Cell)
+  | setData (rows : List (List Cell)) (names : Option (List Str)) (truncate : Bool)
+deriving DecidableEq, Repr
+
+def LasCurves.step (L : LasCurves) : CurveOp → LasCurves × CvResult
+  | .appendCurve m u v d data => L.appendCurve m u v d data
+  | .insertCurve ix m u v d data => L.insertCurve ix m u v d data
+  | .appendItem c => L.appendItem c
+  | .insertItem ix c => L.insertItem ix c
+  | .replaceItem ix c => L.replaceItem ix c
+  | .deleteIx ix => L.deleteIx ix
+  | .deleteMnem m => L.deleteMnem m
+  | .updateIx ix data u d v => L.updateIx ix data u d v
+  | .updateMnem m data u d v => L.updateMnem m data u d v
+  | .setItemCurve key it data => L.setItemCurve key it data
+  | .setItemData key data => L.setItemData key data
+  | .setData rows names truncate => L.setData rows names truncate
+
+def LasCurves.run (L : LasCurves) (ops : List CurveOp) : LasCurves := ops.foldl (fun L op => (L.step op).1) L
+
+/-- a fresh `LASFile()` : no curves, `mnemonic_transforms = False` -/
+def LasCurves.empty : LasCurves := ⟨⟨[], false⟩, []⟩
+
+/-! ### views -/
+
+/-- `las.values()` -/
+def LasCurves.values (L : LasCurves) : List (List Cell) := L.data
+/-- `las.items()` -/
+def LasCurves.itemsView (L : LasCurves) : List (Str × List Cell) := L.sec.keys.zip L.data
+
+/-- `las[key]` : `int` → `self.curves[key].data`; `str` → must be literally among the session mnemonics, then
+`self.curves[key].data` (the section's own comparison) -/
+def LasCurves.getitem (L : LasCurves) (k : Key) : Except CvResult (List Cell) :=
+  match k with
+  | .int _ =>
+    match L.sec.getitem k with
+    | .ok j => .ok (L.data.getD j [])
+    | .error _ => .error .indexError
+  | .str m =>
+    if L.keys.contains m then
+      match L.sec.getitem k with
+      | .ok j => .ok (L.data.getD j [])
+      | .error _ => .error .keyError
+    else .error .keyError
+
+/-- `las.index` = `self.curves[0].data` -/
+def LasCurves.index (L : LasCurves) : Except CvResult (List Cell) := L.getitem (.int 0)
+
+/-- `las.data` = `np.vstack([c.data for c in curves]).T` as a list of rows; ValueError for no curves or unequal
+lengths -/
+def LasCurves.dataView (L : LasCurves) : Except CvResult (List (List Cell)) :=
+  match L.data with
+  | [] => .error .valueError
+  | d :: ds =>
+    if ds.all (fun x => x.length == d.length) then
+      .ok ((List.range d.length).map fun j => L.data.map (fun col => col.getD j []))
+    else .error .valueError
+
+/-! ### the abstract specification: a plain list of (name, metadata, array) -/
+
+structure SpecCurve where
+  orig : Str
+  unit : Str
+  value : Str
+  descr : Str
+  data : List Cell
+deriving DecidableEq, Repr
+
+abbrev SpecCurves := List SpecCurve
+
+def specOf (it : Item) (d : List Cell) : SpecCurve := ⟨it.orig, it.unit, it.value, it.descr, d⟩
+
+/-- abstraction: forget the session mnemonics -/
+def LasCurves.abs (L : LasCurves) : SpecCurves := List.zipWith specOf L.sec.items L.data
+
+def specInsert (S : SpecCurves) (ix : Int) (c : SpecCurve) : SpecCurves :=
+  insertAt S (pyInsertPos S.length ix) c
+
+def specDelete (S : SpecCurves) (ix : Int) : SpecCurves :=
+  match pyIndex S.length ix with
+  | some j => S.eraseIdx j
+  | none => S
+
+def specUpdate (S : SpecCurves) (ix : Int) (data : Option (List Cell)) (unit descr value : Option Str) :
+    SpecCurves :=
+  match pyIndex S.length ix with
+  | some j => S.modify j (fun c => ⟨c.orig, unit.getD c.unit, value.getD c.value, descr.getD c.descr,
+      data.getD c.data⟩)
+  | none => S
+
+def specReplace (S : SpecCurves) (ix : Int) (c : CurveArg) : SpecCurves :=
+  match pyIndex S.length ix with
+  | some j =>
+    let S' := S.eraseIdx j
+    if c.isCurve then specInsert S' ix (specOf c.item c.data) else S'
+  | none => S
+
+def cvBlankSpec : SpecCurve := ⟨[], [], [], [], []⟩
+
+/-- `set_data` on the plain list -/
+def specSetData (S : SpecCurves) (rows : List (List Cell)) (names : Option (List Str)) (truncate : Bool) :
+    SpecCurves :=
+  let rows1 := if truncate then rows.map (fun r => r.take S.length) else rows
+  let w := cvRowsWidth rows1
+  if 0 < rows1.length * w then
+    let S1 := S ++ List.replicate (w - S.length) cvBlankSpec
+    let names1 := effectiveNames (S1.map (·.orig)) names
+    cvMapIdx (fun i c =>
+      ({ c with orig := if i ≤ w then names1.getD i [] else c.orig,
+                data := if i < w then cvColumn rows1 i else c.data } : SpecCurve)) 0 S1
+  else S
+
+/-- the same operations on the plain list; a mnemonic argument is resolved in the table `keys` of the current
+session mnemonics (`keys.index(m)`), everything else is ordinary list surgery -/
+def specStep (keys : List Str) (S : SpecCurves) : CurveOp → SpecCurves
+  | .appendCurve m u v d data => S ++ [⟨m, u, v, d, data⟩]
+  | .insertCurve ix m u v d data => specInsert S ix ⟨m, u, v, d, data⟩
+  | .appendItem c => if c.isCurve then S ++ [specOf c.item c.data] else S
+  | .insertItem ix c => if c.isCurve then specInsert S ix (specOf c.item c.data) else S
+  | .replaceItem ix c => specReplace S ix c
+  | .deleteIx ix => specDelete S ix
+  | .deleteMnem m =>
+    match keyIndex keys m with
+    | some j => S.eraseIdx j
+    | none => S
+  | .updateIx ix data u d v => specUpdate S ix data u d v
+  | .updateMnem m data u d v =>
+    match keyIndex keys m with
+    | some j => specUpdate S (Int.ofNat j) data u d v
+    | none => S
+  | .setItemCurve key it data =>
+    if key != it.session then S
+    else match keyIndex keys key with
+      | some j => S.set j (specOf it data)
+      | none => S ++ [specOf it data]
+  | .setItemData key data =>
+    match keyIndex keys key with
+    | some j => specUpdate S (Int.ofNat j) (some data) none none none
+    | none => S ++ [⟨key, [], [], [], data⟩]
+  | .setData rows names truncate => specSetData S rows names truncate
+
+/-- the plain-list history: mnemonic arguments are looked up in the session names of the concrete state reached
+so far, nothing else of the concrete state is used -/
+def specRun : LasCurves → SpecCurves → List CurveOp → SpecCurves
+  | _, S, [] => S
+  | L, S, op :: ops => specRun (L.step op).1 (specStep L.keys S op) ops
+
+/-! ### two LASFiles edited alternately -/
+
+/-- `false` addresses the first LASFile, `true` the second -/
+def cvStep2 (P : LasCurves × LasCurves) (o : Bool × CurveOp) : LasCurves × LasCurves :=
+  if o.1 then (P.1, (P.2.step o.2).1) else ((P.1.step o.2).1, P.2)
+
+def cvRun2 (P : LasCurves × LasCurves) (ops : List (Bool × CurveOp)) : LasCurves × LasCurves :=
+  ops.foldl cvStep2 P
+
 end Lasio
